@@ -5,7 +5,8 @@
 From Coq Require Import String List NArith.
 From CMinx Require Import Base.Str Model.Lexer Model.Parser Model.DocTypes Model.Aggregator
      Model.Pipeline Spec.AggSpec Spec.CMakeGrammar Proofs.LexerFacts Proofs.ParserFacts Proofs.AggInv
-     Proofs.CleanFacts Proofs.LayoutFacts Proofs.GrammarFacts Proofs.NoCrashFacts.
+     Proofs.CleanFacts Proofs.LayoutFacts Proofs.GrammarFacts Proofs.NoCrashFacts
+     Gen.GrammarSource Proofs.GrammarBaseline Proofs.GrammarPins.
 Import ListNotations.
 
 (* UTF-8 text: decoding is total on encodings of scalar values and the inverse of encoding *)
@@ -82,3 +83,18 @@ Theorem C05_balanced_file_never_crashes :
     aggregate default_flags trigger sf sm sme f <> Crash.
 Proof. exact balanced_file_never_crashes. Qed.
 Print Assumptions C05_balanced_file_never_crashes.
+
+(* ---- the grammar: CMake.g4 and the generated lexer/parser (serialised ATN) that run now are those
+   the model's lexer and parser were written from and validated against; the model's rule order,
+   token numbering and skip set are the grammar's (Gen/GrammarSource.v regenerated every run) ---- *)
+Theorem C05_grammar_unchanged :
+  g4_rules = base_g4_rules /\ lexer_atn = base_lexer_atn /\ parser_atn = base_parser_atn.
+Proof. exact (conj g4_rules_unchanged (conj lexer_atn_unchanged (proj2 parser_unchanged))). Qed.
+Print Assumptions C05_grammar_unchanged.
+
+Theorem C05_model_rules_are_grammar_rules :
+  map (fun r => kind_name (fst r)) rules = token_rule_names
+  /\ map (fun r => kind_id (fst r)) rules = seq 1 (length token_rule_names)
+  /\ map (fun r => kind_name (fst r)) (filter (fun r => skipped (fst r)) rules) = g4_skipped.
+Proof. exact (conj model_rules_are_grammar_rules (conj model_token_numbers model_skip_set)). Qed.
+Print Assumptions C05_model_rules_are_grammar_rules.
